@@ -335,8 +335,8 @@ def r5(ctx):
 
 
 def r_enum(ctx):
-    from .common import enum_identity
-    enum_identity(ctx, "C06.R6", ('connection',))
+    from .common import repo_idioms
+    repo_idioms(ctx, "C06.R6", ('connection',))
 
 
 RULES = [("C06.R1", r1), ("C06.R2", r2), ("C06.R3", r3), ("C06.R4", r4), ("C06.R5", r5), ("C06.R6", r_enum)]
